@@ -98,6 +98,25 @@ Proof.
     + cbn. repeat split; auto.
 Qed.
 
+(* --- the transfer manager as a source of reasons (TransferManager.manage_user_tracking, regenerated: cycle_calls) ---------
+   One management cycle seen from one user = the track / untrack calls of [cycle_calls unf fin].  Whatever happened before
+   (in particular a server disconnect, which drops everything), after a cycle TRANSFER is among the user's reasons while the
+   user has an unfinished transfer, and it is not once every transfer of the user is finalized. *)
+Definition cycle_events (unf fin : bool) : list event :=
+  map (fun c : bool * nat => if fst c then Track (snd c) else Untrack (snd c)) (cycle_calls unf fin).
+
+Theorem C15_transfer_reason_follows_cycle : FLAG_TRANSFER = 2 ^ 1 /\
+  (forall es fin, Nat.testbit (reasons (run (es ++ cycle_events true fin))) 1 = true) /\
+  (forall es, Nat.testbit (reasons (run (es ++ [ServerClosed] ++ cycle_events true false))) 1 = true) /\
+  (forall es, Nat.testbit (reasons (run (es ++ cycle_events false true))) 1 = false).
+Proof.
+  split; [reflexivity|].
+  split; [|split]; intros; rewrite no_call_lost; unfold spec_run, cycle_events, cycle_calls; rewrite !fold_left_app.
+  - destruct fin; cbn [map app fold_left spec_step fst snd negb andb]; rewrite Nat.lor_spec; apply orb_true_r.
+  - cbn [map app fold_left spec_step fst snd negb andb]. rewrite Nat.lor_spec. apply orb_true_r.
+  - cbn [map app fold_left spec_step fst snd negb andb]. rewrite Nat.ldiff_spec. apply andb_false_r.
+Qed.
+
 (* --- the tie: decisions regenerated from _tracking_task (tr_tracking), hand-abstracted functions pinned ------------- *)
 (* the worker's decision list, regenerated from the if / elif structure of _tracking_task, in closed form; the machine's
    [dequeue] and [exit_check] branch on [worker_decide] itself (Model.v), the proofs go through dequeue_eq / exit_check_eq *)
